@@ -232,6 +232,31 @@ static void do_cap(const std::vector<std::string> &f)
     size_t r = rtosc_amessage((char*)B.p, cap, (const char*)A.p, (const char*)T.p, args);
     std::ostringstream o;
     o << "p=" << need << " r=" << r << " b=" << hex(B.p, cap);
+    // the other two constructors into a dirty block of the same capacity
+    {
+        ExactBuf C(z); bool ok;
+        size_t rv = call_vmessage((char*)C.p, cap, (const char*)A.p, (const char*)T.p, pk, ok);
+        size_t rn = ok ? call_vmessage(nullptr, 0, (const char*)A.p, (const char*)T.p, pk, ok) : 0;
+        if(!ok) o << " V=na";
+        else if(rn != need) o << " V=null:" << rn;
+        else if(rv == r && !memcmp(C.p, B.p, cap)) o << " V=same";
+        else o << " V=" << rv << ":" << hex(C.p, cap);
+    }
+    if(tags.find('[') != std::string::npos || tags.find(']') != std::string::npos) o << " A=na";
+    else {
+        std::vector<rtosc_arg_val_t> av;
+        size_t k = 0;
+        for(char c : tags) {
+            rtosc_arg_val_t x; memset(&x, 0, sizeof x); x.type = c;
+            if(reserved(c)) x.val = pk.a[k++];
+            else if(c == 'T') x.val.T = 1;
+            av.push_back(x);
+        }
+        ExactBuf C(z);
+        size_t ra = rtosc_avmessage((char*)C.p, cap, (const char*)A.p, av.size(), av.empty() ? nullptr : av.data());
+        if(ra == r && !memcmp(C.p, B.p, cap)) o << " A=same";
+        else o << " A=" << ra << ":" << hex(C.p, cap);
+    }
     puts(o.str().c_str());
 }
 
@@ -308,9 +333,14 @@ static std::vector<uint8_t> build(const Node &n, std::ostringstream &o)
         e.push_back((const char*)keep.back()->p);
         total += 4 + b.size();
     }
-    std::vector<uint8_t> z(total + 4, 0xAA);     // +4: readers look at the word after the last element
+    // built into a block of exactly the bundle's size, then read from a copy
+    // with four more zero bytes (readers look at the word after the last element)
+    std::vector<uint8_t> ex(total, 0xAA);
+    ExactBuf E(ex);
+    size_t r = call_bundle((char*)E.p, total, n.tt, e);
+    std::vector<uint8_t> z(total + 4, 0);
+    memcpy(z.data(), E.p, total);
     ExactBuf B(z);
-    size_t r = call_bundle((char*)B.p, total + 4, n.tt, e);
     const char *buf = (const char*)B.p;
     o << "[r=" << r << " p=" << rtosc_bundle_p(buf) << " n=" << rtosc_bundle_elements(buf, r)
       << " tt=" << rtosc_bundle_timetag(buf) << " L=" << rtosc_message_length(buf, r) << " e=";
@@ -439,6 +469,23 @@ static void do_tl(const std::vector<std::string> &f)
 
 static void on_alarm(int) { const char m[] = "HANG\n"; (void)!write(1, m, 5); _exit(3); }
 
+//  ring <hex> <cut>   rtosc_message_ring_length over the two-segment ring
+//  [0,cut) + [cut,len) of the bytes, each segment an exact heap block
+static void do_ring(const std::vector<std::string> &f)
+{
+    auto b = unhex(f[1]);
+    size_t cut = strtoull(f[2].c_str(), nullptr, 10);
+    if(cut > b.size()) cut = b.size();
+    ExactBuf S0(std::vector<uint8_t>(b.begin(), b.begin() + cut));
+    ExactBuf S1(std::vector<uint8_t>(b.begin() + cut, b.end()));
+    ring_t r[2] = {{(char*)S0.p, cut}, {(char*)S1.p, b.size() - cut}};
+    fflush(stdout);
+    alarm(5);
+    size_t L = rtosc_message_ring_length(r);
+    alarm(0);
+    printf("RL=%zu\n", L);
+}
+
 static void do_raw(const std::vector<std::string> &f)
 {
     auto b = unhex(f[1]);
@@ -464,6 +511,7 @@ int main()
         auto f = split(line, ' ');
         if(f.empty()) { puts("BADCASE"); continue; }
         if(f[0] == "msg" && f.size() >= 4) do_msg(f);
+        else if(f[0] == "ring" && f.size() >= 3) do_ring(f);
         else if(f[0] == "cap" && f.size() >= 5) do_cap(f);
         else if(f[0] == "bcap" && f.size() >= 4) do_bcap(f);
         else if(f[0] == "bun" && f.size() >= 2) do_bun(f);
